@@ -271,7 +271,9 @@ def c06(tier, seed):
     r3 = replay("C06", t3, seed, 1, threads=14)
     if tier == "quick":
         tcfg = [("c06-tr-rekey", dict(MaxSend=2, Depth=4, BadBudget=0, SetBudget=0, RekeyBudget=2, SmallBufs=False)),
-                ("c06-sl", dict(Stateful=False, MaxSend=1, Depth=2, BadBudget=0, SetBudget=0, SmallBufs=False))]
+                ("c06-sl", dict(Stateful=False, MaxSend=1, Depth=2, BadBudget=0, SetBudget=0, SmallBufs=False)),
+                ("c06-ow-set", dict(OneWayT=True, MaxSend=2, Depth=4, BadBudget=0, SetBudget=1, SmallBufs=False)),
+                ("c06-top", dict(NonceMode="top", MaxSend=3, Depth=4, BadBudget=0, SetBudget=0, RekeyBudget=1, SmallBufs=False))]
     else:
         tcfg = [("c06-tr-rekey", dict(MaxSend=3, Depth=6, BadBudget=1, SetBudget=0, RekeyBudget=3, SmallBufs=True)),
                 ("c06-sl", dict(Stateful=False, MaxSend=2, Depth=3, BadBudget=0, SetBudget=0, SmallBufs=False)),
@@ -400,7 +402,10 @@ def tlegs(prop, seed, configs, per_scn=1):
         c = dict(c)
         backends = c.pop("backends", "default")
         t = transport(name, **c)
-        rl.append(replay(prop, t, seed, per_scn, threads=14, backends=backends))
+        # small edge sets are replayed for more names each, so that pattern-specific behaviour is reached
+        nscn = max(1, count_lines(t["out"], "SCN"))
+        per = per_scn if backends != "default" else min(24, max(per_scn, 5000 // nscn))
+        rl.append(replay(prop, t, seed, per, threads=14, backends=backends))
         tl.append(t)
     return tl, rl
 
@@ -409,6 +414,8 @@ def c05(tier, seed):
     if tier == "quick":
         cfgs = [("c05-tr", dict(MaxSend=2, Depth=4, BadBudget=1, SetBudget=1)),
                 ("c05-top", dict(NonceMode="top", MaxSend=1, Depth=5, BadBudget=0, SetBudget=2, SmallBufs=False)),
+                ("c05-ow", dict(OneWayT=True, MaxSend=2, Depth=4, BadBudget=1, SetBudget=1, SmallBufs=False)),
+                ("c05-big", dict(MaxSend=1, Depth=3, BadBudget=0, SetBudget=0, SmallBufs=False, BigBudget=1)),
                 ("c05-tr-ring", dict(MaxSend=2, Depth=3, BadBudget=1, SetBudget=0, backends="mix-sample"))]
     else:
         cfgs = [("c05-tr", dict(MaxSend=3, Depth=5, BadBudget=1, SetBudget=1)),
@@ -582,7 +589,11 @@ def c12(tier, seed):
                       InitPads=[False], Variants=["tr"], TrafficMode="short")
     r2 = replay("C12", t2, seed, 1, threads=14)
     r2b = replay("C12", t2b, seed, 1, threads=14)
-    res = merge("model_checking", [t1, t2, t2b], [r1, r2, r2b],
+    # keys supplied in psk slots the pattern does not use change nothing (honest sessions, all 38 patterns + psk variants)
+    t2c = session("c12-extra-psk", ExtraPsks=[True], PskMode="single" if tier == "quick" else "all", PubLens=[32],
+                  InitPads=[False], Variants=["tr"], TrafficMode="short")
+    r2c = replay("C12", t2c, seed, 1, threads=14)
+    res = merge("model_checking", [t1, t2, t2b, t2c], [r1, r2, r2b, r2c],
                 "a supplied PSK stays supplied across failing calls (psk-bearing messages with a failing call, then the retry); "
                 "complete enumeration by TLC (spec/MC_Builder.tla): 38 patterns x 2 roles x 4 subsets of supplied static keys x 2 DH functions (25519, P-256) "
                 "x modifier lists {none, psk0..psk9, fallback, psk1+fallback} x resolver lacking {nothing, rng, dh, cipher, "
@@ -659,13 +670,13 @@ def c13(tier, seed):
 def c20(tier, seed):
     # (a) every backend assignment conforms to the same backend-free specification
     if tier == "quick":
-        t1 = session("c20-honest", PskMode="single", PubLens=[32], Profiles=["mid"], BufModes=["big", "exact"],
+        t1 = session("c20-honest", PskMode="single", PubLens=[32], Profiles=["mid", "kilo"], BufModes=["big", "exact"],
                      Variants=["tr", "sl"])
         r1 = replay("C20", t1, seed, 1, backends="mix-sample", threads=14)
         t3 = transport("c20-transport", MaxSend=2, Depth=3, BadBudget=1, SetBudget=0, RekeyBudget=1, SmallBufs=True)
         r3 = replay("C20", t3, seed, 1, backends="mix-sample", threads=14)
     else:
-        t1 = session("c20-honest", PskMode="all", PubLens=[32], Profiles=["small", "mid", "max"], BufModes=["big", "exact"],
+        t1 = session("c20-honest", PskMode="all", PubLens=[32], Profiles=["small", "mid", "kilo", "max"], BufModes=["big", "exact"],
                      Variants=["tr", "sl"])
         r1 = replay("C20", t1, seed, 2, backends="mix", threads=14)
         t3 = transport("c20-transport", MaxSend=2, Depth=4, BadBudget=1, SetBudget=1, RekeyBudget=2, SmallBufs=True)
